@@ -379,26 +379,24 @@ impl ProcfsHandle {
         // NOTE: There is technically a race here, but it relies the target path
         //       being a magic-link and then another thing being mounted on top.
         //       This is the same race as below.
-        match self.readlink(base, subpath) {
+        // Only the answer of readlinkat(2) on the opened target tells us its
+        // type: EINVAL (or ENOENT for the empty path we use) means "this is
+        // not a symlink". A failure of the lookup itself, or any other failure
+        // of the readlinkat(2) (ENOMEM, EIO, ...), says nothing about the type:
+        // taking the O_NOFOLLOW path for it would hand out the link itself for
+        // O_PATH (for reopen() that is the /proc/thread-self/fd/N magic-link).
+        let link = self.open(base, subpath, OpenFlags::O_PATH)?;
+        match syscalls::readlinkat(&link, "") {
             Ok(_) => (),
-            // A detected attack must not be mistaken for "not a symlink".
-            Err(err) if err.is_safety_violation() => return Err(err),
-            // Only "this is not a symlink" (readlinkat(2) says EINVAL, or ENOENT
-            // for an empty path on a non-symlink) or "there is nothing there"
-            // (where the open below reports the same error) may take the
-            // O_NOFOLLOW path. Any other failure (ENOMEM, EMFILE, EACCES, ...)
-            // says nothing about the type of the target: falling back to an
-            // O_NOFOLLOW open would hand out the link itself for O_PATH.
-            Err(err)
-                if !matches!(
-                    err.kind(),
-                    ErrorKind::OsError(Some(libc::EINVAL)) | ErrorKind::OsError(Some(libc::ENOENT))
-                ) =>
-            {
-                return Err(err)
+            Err(err) if matches!(err.errno(), rustix::io::Errno::INVAL | rustix::io::Errno::NOENT) => {
+                return self.open(base, subpath, oflags).map(File::from)
             }
-            Err(_) => return self.open(base, subpath, oflags).map(File::from),
+            Err(err) => Err(ErrorImpl::RawOsError {
+                operation: "check whether procfs target is a symlink".into(),
+                source: err,
+            })?,
         }
+        drop(link);
 
         // The rest operates on the link's parent directory inside one procfs
         // handle (normally this one).
